@@ -219,8 +219,8 @@ func (w *Worker) runPath(prefix []Decision) {
 	ex.Steps += r.steps
 	ex.Asserts += r.asserts
 	ex.AssertsSMT += r.assertsSolver
-	if r.preemptions > ex.MaxPreempt {
-		ex.MaxPreempt = r.preemptions
+	if r.deviations > ex.MaxPreempt {
+		ex.MaxPreempt = r.deviations
 	}
 	for f := range r.fnsSeen {
 		ex.Fns[f] = true
